@@ -20,6 +20,8 @@ def warm_layouts():
     C.run_tlc("Conc", "Conc_c10.cfg", workers=12, timeout=3600)
     C.run_tlc("ImportWalk", "ImportWalk.cfg", workers=8, timeout=3600)
     C.run_tlc("Discovery", "Discovery.cfg", workers=8, timeout=3600)
+    C.run_tlc("Imports", "Imports.cfg", workers=12, timeout=3600)
+    C.run_tlc("Plugins", "Plugins.cfg", workers=4, timeout=3600)
 
 
 CHECKS = {
@@ -34,6 +36,7 @@ CHECKS = {
     "C10": concchecks.check_c10,
     "C12": concchecks.check_c12,
     "C13": diskchecks.check_c13,
+    "C14": diskchecks.check_c14,
     "C16": depgraphs.check_c16,
     "C19": lspchecks.check_c19,
     "C20": clichecks.check_c20,
